@@ -15,8 +15,7 @@ Definition maxabs (l : list Q) : Q :=
 Definition qlist_eqb (a b : list Q) : bool := list_eqb Qeq_bool a b.
 Definition rows_eqb (a b : list (list Q)) : bool := list_eqb qlist_eqb a b.
 
-Definition tol_solve : Q := 1 # 10000000.          (* 1e-7 relative to max |x| *)
-Definition tiny : Q := 1 # 1000000000000000000000000000000.
+Definition tol_solve : Q := 1 # 10000000.          (* 1e-7, relative: to |a|+|b| and to max |x| — no absolute term *)
 
 Inductive case :=
 (* tridisolve(d, e, b): outputs of each implementation that is available *)
@@ -37,7 +36,7 @@ Inductive case :=
 | KOrder (ascw used : list float).
 
 Definition close_to (x : list Q) (o : list float) : bool :=
-  allfinite o && close_list_tol tol_solve (tol_solve * maxabs x + tiny) (fl o) x.
+  allfinite o && close_list_tol tol_solve (tol_solve * maxabs x) (fl o) x.
 
 Fixpoint map2 {A B C} (f : A -> B -> C) (l1 : list A) (l2 : list B) : list C :=
   match l1, l2 with a :: l1', b :: l2' => f a b :: map2 f l1' l2' | _, _ => [] end.
